@@ -70,38 +70,50 @@ func (ex *Exec) fieldTypeAt(root, path string) types.Type {
 	return t
 }
 
-// selfOf: pointer to the struct that contains the mutex p points to.
+// selfOf: pointer to the root object (the named struct) that contains the mutex p points to.
+// Guards and invariants are written as paths from that object (self.protected.done).
 func (ex *Exec) selfOf(p Val) Val {
-	pre := strings.TrimSuffix(p.Prefix, ".")
-	parent := ""
-	if i := strings.LastIndex(pre, "."); i >= 0 {
-		parent = pre[:i+1]
-	}
-	var t types.Type
-	if parent == "" {
-		t = ex.namedType(p.Root)
-	} else {
-		t = ex.fieldTypeAt(p.Root, parent)
-	}
+	t := ex.namedType(p.Root)
 	if t == nil {
-		return Val{T: p.T, S: "Int", Root: p.Root, Prefix: parent}
+		return Val{T: p.T, S: "Int", Root: p.Root}
 	}
-	return Val{T: p.T, S: "Int", Typ: types.NewPointer(t), Root: p.Root, Prefix: parent}
+	return Val{T: p.T, S: "Int", Typ: types.NewPointer(t), Root: p.Root}
+}
+
+// pathPtr: pointer to the field at dotted path from self
+func (ex *Exec) pathPtr(self Val, path string) (Val, types.Type, bool) {
+	cur := self
+	var ft types.Type
+	parts := strings.Split(path, ".")
+	for i, f := range parts {
+		s := structOf(derefType(cur.Typ))
+		if s == nil {
+			return Val{}, nil, false
+		}
+		idx, emb := findField(s, f)
+		if idx < 0 {
+			return Val{}, nil, false
+		}
+		for _, e := range emb {
+			cur = ex.fieldPtr(cur, e)
+		}
+		s = structOf(derefType(cur.Typ))
+		ft = s.Field(idx).Type()
+		cur = ex.fieldPtr(cur, idx)
+		if i < len(parts)-1 && structOf(ft) == nil {
+			return Val{}, nil, false
+		}
+	}
+	return cur, ft, true
 }
 
 func (ex *Exec) havocGuards(st *State, ls *LockSpec, self Val) {
-	s := structOf(derefType(self.Typ))
-	if s == nil {
-		return
-	}
 	for _, g := range ls.Guards {
-		idx, _ := findField(s, g)
-		if idx < 0 {
-			ex.specError("lock %s: guard %s is not a field", ls.Key, g)
+		fp, ft, ok := ex.pathPtr(self, g)
+		if !ok {
+			ex.specError("lock %s: guard %s is not a field path", ls.Key, g)
 			continue
 		}
-		fp := ex.fieldPtr(self, idx)
-		ft := s.Field(idx).Type()
 		if mt, ok := types.Unalias(ft).Underlying().(*types.Map); ok {
 			// the map header field is init-only; its contents are what the lock guards
 			m := ex.load(st, fp)
@@ -166,6 +178,7 @@ func (ex *Exec) lock(st *State, fr *Frame, instr ssa.Instruction, p Val) {
 		}
 	}
 	st.held = append(st.held, lr)
+	fr.lockSnap = st.snapshot()
 }
 
 func (ex *Exec) unlock(st *State, fr *Frame, instr ssa.Instruction, p Val) {
